@@ -3245,6 +3245,14 @@ impl PeerConnection {
         // The id is picked and the channel registered under one lock: two
         // concurrent calls must not both find the same id free.
         let mut channels = self.inner.data_channels.lock();
+        // close() has already ended every registered channel: one registered now
+        // would never be opened nor closed, and its recv() would wait for ever.
+        // (Checked under the registry lock, which close() takes for its sweep.)
+        if *self.inner.signaling_state.borrow() == SignalingState::Closed {
+            return Err(RtcError::InvalidState(
+                "cannot create a data channel on a closed connection".into(),
+            ));
+        }
         let id = if let Some(negotiated_id) = config.negotiated {
             negotiated_id
         } else {
